@@ -20,9 +20,11 @@ const basePreamble = `(set-option :produce-models true)
 (define-fun fld ((r Ref) (i Int)) Ref (mkref (rb r) (pf (rp r) i)))
 (define-fun idx ((r Ref) (i Int)) Ref (mkref (rb r) (pi (rp r) i)))
 (define-fun nilslice () Slice (mkslice null 0 0 0))
+(declare-fun sidx (Slice Int) Ref)
+(assert (forall ((s Slice) (i Int)) (! (= (sidx s i) (idx (sarr s) (+ (soff s) i))) :pattern ((sidx s i)))))
 (declare-sort Str 0)
 (declare-fun strlen (Str) Int)
-(assert (forall ((s Str)) (! (>= (strlen s) 0) :pattern ((strlen s)))))
+(assert (forall ((s Str)) (! (and (>= (strlen s) 0) (<= (strlen s) 9223372036854775807)) :pattern ((strlen s)))))
 (declare-const emptystr Str)
 (assert (= (strlen emptystr) 0))
 (declare-sort Iface 0)
@@ -278,7 +280,7 @@ func (s *Sorts) rangeFact(t types.Type, term string) string {
 			return fmt.Sprintf("(and (<= %s %s) (<= %s %s))", smtInt(lo), term, term, smtInt(hi))
 		}
 	case *types.Slice:
-		return fmt.Sprintf("(and (<= 0 (slen %s)) (<= (slen %s) (scap %s)) (<= 0 (soff %s)) (=> (= (sarr %s) null) (= (scap %s) 0)))", term, term, term, term, term, term)
+		return fmt.Sprintf("(and (<= 0 (slen %s)) (<= (slen %s) (scap %s)) (<= (scap %s) 9223372036854775807) (<= 0 (soff %s)) (=> (= (sarr %s) null) (= (scap %s) 0)))", term, term, term, term, term, term, term)
 	case *types.Struct:
 		ss := s.structOf(t)
 		var fs []string
